@@ -388,11 +388,17 @@ def confirm(mod, v, tries=2):
         d.mkdir(parents=True, exist_ok=True)
         path = d / f"{mod.ID}-{case_hash(v['case'])}.json"
         path.write_text(json.dumps({"case": v["case"]}, default=str))
-        r = subprocess.run([sys.executable, str(VERIF / "pbt" / "run.py"), mod.ID, "replay", str(path)],
-                           capture_output=True, text=True, cwd=str(VERIF))
-        path.unlink(missing_ok=True)
-        if r.returncode == 1 and "VIOLATION property=" in r.stdout:
-            return True
+        # (up to three fresh interpreters: a change that makes results depend on something measured at run time - an FFT
+        #  plan chosen by timing, say - fails in some processes and not in others; one observed failure of the replayed
+        #  history in a fresh process is a real observation, and on deterministic code all three attempts agree)
+        try:
+            for _ in range(3):
+                r = subprocess.run([sys.executable, str(VERIF / "pbt" / "run.py"), mod.ID, "replay", str(path)],
+                                   capture_output=True, text=True, cwd=str(VERIF))
+                if r.returncode == 1 and "VIOLATION property=" in r.stdout:
+                    return True
+        finally:
+            path.unlink(missing_ok=True)
     return False
 
 
